@@ -80,7 +80,7 @@ def check_report(cx, rep, bound, det, leaf):
 
 def run_case(case, cx):
     m, m2, cfg = case["model"], case["mutant"], case["cfg"]
-    d, b1, b2 = pairs.build_pair(cx, m, m2, cfg, nodebug_tus=tuple(case["nodebug"]))
+    d, b1, b2 = pairs.build_pair(cx, m, m2, cfg, nodebug_tus=tuple(case["nodebug"]), sonames=case.get("sonames"))
     opts = list(case["mode"])
     if case["suppr"]:
         sp = d + "/s.suppr"
